@@ -1,11 +1,16 @@
 (** * C10 — Separated sub-diagrams render independently of each other.
-    Statements only; proofs in Theory/MergeTheory.v (M3) and Theory/Shift*.v. *)
-Require Import SB.Model.Base SB.Model.Geom SB.Model.Merge SB.Model.FragBuf SB.Model.Endorse
-  SB.Theory.MergeTheory SB.Theory.ShiftTheory SB.Theory.ShiftBuf SB.Theory.ShiftEndorse.
+    Statements only; proofs in Theory/MergeTheory.v (M3), Theory/SepTheory.v, Theory/TreeSep.v
+    Theory/PipeInv.v, Theory/SepOrder.v and Theory/Shift*.v. *)
+Require Import SB.Model.Base SB.Model.Geom SB.Model.Merge SB.Model.FragBuf SB.Model.Endorse SB.Model.Tree
+  SB.Model.Svg SB.Model.Lib
+  SB.Theory.MergeTheory SB.Theory.ShiftTheory SB.Theory.ShiftBuf SB.Theory.ShiftEndorse SB.Theory.SepTheory SB.Theory.TreeSep
+  SB.Theory.PipeInv SB.Theory.SepOrder SB.Theory.ShiftText SB.Theory.Juxta SB.Model.Text.
+From Coq Require Import Permutation QArith.
+#[local] Open Scope Z_scope.
 
-(** M3: if a predicate splits the items into two classes that never merge with each other
-    and merging stays inside a class, a pass of the merge loop over the mixed list, restricted
-    to one class, is the pass over that class alone — items, merged contents and order. *)
+(** M3, one pass: if a predicate splits the items into two classes that never merge with each
+    other and merging stays inside a class, a pass of the merge loop over the mixed list,
+    restricted to one class, is the pass over that class alone: items, merged contents, order. *)
 Theorem C10_pass_commutes_with_restriction :
   forall (A : Type) (merge : A -> A -> option A) (P : A -> bool),
     (forall a b, P a <> P b -> merge a b = None) ->
@@ -18,20 +23,165 @@ Check C10_pass_commutes_with_restriction :
     (forall a b c, merge a b = Some c -> P c = P a) ->
     forall l, filter P (second_pass merge l) = second_pass merge (filter P l).
 
+(** M3, the whole loop, relative to an invariant kept by merging: the result for one class is
+    the result for the whole list restricted to that class.  The loop for the part may stop
+    after a different number of passes than the loop for the whole; both stop at the same list. *)
+Theorem C10_loop_commutes_with_restriction :
+  forall (A : Type) (merge : A -> A -> option A) (P : A -> bool) (I : A -> Prop),
+    (forall a b c, merge a b = Some c -> I a -> I b -> I c) ->
+    (forall a b, I a -> I b -> P a <> P b -> merge a b = None) ->
+    (forall a b c, I a -> I b -> merge a b = Some c -> P c = P a) ->
+    forall l, Forall I l ->
+      merge_recursive merge (filter P l) = map_res (filter P) (merge_recursive merge l).
+Proof. intros A merge P I H1 H2 H3 l F. rewrite (merge_recursive_filter merge P I H1 H2 H3 l F). reflexivity. Qed.
+Check C10_loop_commutes_with_restriction :
+  forall (A : Type) (merge : A -> A -> option A) (P : A -> bool) (I : A -> Prop),
+    (forall a b c, merge a b = Some c -> I a -> I b -> I c) ->
+    (forall a b, I a -> I b -> P a <> P b -> merge a b = None) ->
+    (forall a b c, I a -> I b -> merge a b = Some c -> P c = P a) ->
+    forall l, Forall I l ->
+      merge_recursive merge (filter P l) = map_res (filter P) (merge_recursive merge l).
+
 (** spans whose cells are not adjacent never merge: the instance for the grouping of cells *)
 Theorem C10_non_adjacent_spans_do_not_merge :
   forall a b : span, span_can_merge a b = false -> span_merge a b = None.
 Proof. intros a b H. unfold span_merge. rewrite H. reflexivity. Qed.
 
+(** a blank column (or row) between two parts separates them: no cell on one side of it is
+    adjacent to a cell on the other side *)
+Theorem C10_a_blank_column_separates :
+  forall cells g, (forall e, In e cells -> cx (fst e) <> g) -> separated (fun c => cx c <? g) cells.
+Proof. exact gap_column_separates. Qed.
+Theorem C10_a_blank_row_separates :
+  forall cells g, (forall e, In e cells -> cy (fst e) <> g) -> separated (fun c => cy c <? g) cells.
+Proof. exact gap_row_separates. Qed.
+
+(** the groups of cells of one part of a separated drawing are exactly the groups of the whole
+    drawing that lie in that part: same cells in each, same order; nothing of the other part
+    leaks in and no group straddles the two *)
+Theorem C10_groups_of_a_part :
+  forall (inA : cell -> bool) cells, separated inA cells ->
+    spans_of_cells (filter (fun e => inA (fst e)) cells) = map_res (filter (side inA)) (spans_of_cells cells).
+Proof. exact spans_of_side. Qed.
+Check C10_groups_of_a_part :
+  forall (inA : cell -> bool) cells, separated inA cells ->
+    spans_of_cells (filter (fun e => inA (fst e)) cells) = map_res (filter (side inA)) (spans_of_cells cells).
+
+(** recognition: the fragments accepted for the whole drawing, and its contact groups, are
+    those accepted for the two parts taken alone, as multisets *)
+Theorem C10_parts_are_recognised_apart :
+  forall (inA : cell -> bool) cells acc groups, separated inA cells ->
+    endorse_cells cells = Ok (acc, groups) ->
+    exists accA gA accB gB,
+      endorse_cells (filter (fun e => inA (fst e)) cells) = Ok (accA, gA) /\
+      endorse_cells (filter (fun e => negb (inA (fst e))) cells) = Ok (accB, gB) /\
+      Permutation acc (accA ++ accB) /\ Permutation groups (gA ++ gB).
+Proof. exact endorse_cells_separated. Qed.
+Check C10_parts_are_recognised_apart :
+  forall (inA : cell -> bool) cells acc groups, separated inA cells ->
+    endorse_cells cells = Ok (acc, groups) ->
+    exists accA gA accB gB,
+      endorse_cells (filter (fun e => inA (fst e)) cells) = Ok (accA, gA) /\
+      endorse_cells (filter (fun e => negb (inA (fst e))) cells) = Ok (accB, gB) /\
+      Permutation acc (accA ++ accB) /\ Permutation groups (gA ++ gB).
+(** provenance: whatever the recognition of one group of cells returns (accepted fragments and
+    the fragments of the remaining contact groups) is made of cells of that group *)
+Theorem C10_fragments_come_from_their_group :
+  forall s acc cs, per_span s = Ok (acc, cs) ->
+    Forall (from_cells s) acc /\ Forall (fun c => c <> [] /\ Forall (from_cells s) c) cs.
+Proof. exact per_span_from_cells. Qed.
+(** hence, with order: the fragments accepted for one part, and its contact groups, are those
+    of the whole drawing whose cells lie in that part, in the same order *)
+Theorem C10_a_part_is_the_restriction_of_the_whole :
+  forall (inA : cell -> bool) cells acc groups, separated inA cells ->
+    endorse_cells cells = Ok (acc, groups) ->
+    endorse_cells (filter (fun e => inA (fst e)) cells) = Ok (filter (fsside inA) acc, filter (cside inA) groups).
+Proof. exact endorse_cells_of_side. Qed.
+Check C10_a_part_is_the_restriction_of_the_whole :
+  forall (inA : cell -> bool) cells acc groups, separated inA cells ->
+    endorse_cells cells = Ok (acc, groups) ->
+    endorse_cells (filter (fun e => inA (fst e)) cells) = Ok (filter (fsside inA) acc, filter (cside inA) groups).
+(** and no error appears by putting two acceptable parts together *)
+Theorem C10_parts_succeed_together :
+  forall (inA : cell -> bool) cells ra rb, separated inA cells ->
+    endorse_cells (filter (fun e => inA (fst e)) cells) = Ok ra ->
+    endorse_cells (filter (fun e => negb (inA (fst e))) cells) = Ok rb ->
+    exists r, endorse_cells cells = Ok r.
+Proof. exact endorse_cells_joined. Qed.
+
 (** each part keeps its rendering wherever it is placed: recognition commutes with the move
-    (C06), so what is computed from a span does not depend on where the span lies *)
+    (C06), so what is computed from a part does not depend on where the part lies *)
 Theorem C10_a_part_renders_the_same_anywhere :
   forall (k n : Z) cells,
     endorse_cells (map (shift_cc k n) cells) = map_res (shift_ec k n) (endorse_cells cells).
 Proof. exact endorse_cells_shift. Qed.
 
-(** The multiset statement for whole documents (the spans of the juxtaposition are the
-    interleaving of the spans of the parts; the final enclosure pass only looks inside one
-    part's bounds) is decided by the correspondence and the oracle of this check. *)
+(** the enclosure pass: when no fragment of one part fits inside the bounds of a fragment of
+    the other, the trees built for one part alone are the trees of the whole whose root lies
+    in that part, and the nodes drawn are those of the two parts *)
+Theorem C10_enclosure_stays_inside_a_part :
+  forall (pA : fragment -> bool) (fs : list fragment),
+    (forall f g, In f fs -> In g fs -> pA f <> pA g -> can_fit f g = false) ->
+    enclose_fragments (filter pA fs) = map_res (filter (tside pA)) (enclose_fragments fs).
+Proof. exact enclose_fragments_side. Qed.
+Theorem C10_nodes_of_the_parts :
+  forall (pA : fragment -> bool) (s : Q) (fs : list fragment) nodes,
+    (forall f g, In f fs -> In g fs -> pA f <> pA g -> can_fit f g = false) ->
+    fragment_nodes s fs = Ok nodes ->
+    exists na nb, fragment_nodes s (filter pA fs) = Ok na /\
+                  fragment_nodes s (filter (fun f => negb (pA f)) fs) = Ok nb /\
+                  Permutation nodes (na ++ nb).
+Proof. exact fragment_nodes_separated. Qed.
+Check C10_nodes_of_the_parts :
+  forall (pA : fragment -> bool) (s : Q) (fs : list fragment) nodes,
+    (forall f g, In f fs -> In g fs -> pA f <> pA g -> can_fit f g = false) ->
+    fragment_nodes s fs = Ok nodes ->
+    exists na nb, fragment_nodes s (filter pA fs) = Ok na /\
+                  fragment_nodes s (filter (fun f => negb (pA f)) fs) = Ok nb /\
+                  Permutation nodes (na ++ nb).
+
+(** From the text: a drawing [A] with another drawing [B], indented by [k] columns, [g >= 1]
+    blank lines below it.  The cells of the stack are the cells of [A] and the cells of [B]
+    moved; what is recognised in the stack, restricted to the rows of [A], is what is
+    recognised in [A] alone, and restricted to the rows below, what is recognised in [B]
+    alone, moved: same fragments, same contact groups, same order. *)
+Theorem C10_stacked_drawings :
+  forall A B k g css cbA cbB cb acc groups, (1 <= g)%nat ->
+    cellbuffer_of_text (A ++ [10]) css = Ok cbA -> cellbuffer_of_text B css = Ok cbB ->
+    cellbuffer_of_text (stacked A B k g) css = Ok cb ->
+    endorse_cells (cb_cells cb) = Ok (acc, groups) ->
+    let upper := fun c => cy c <? height A in
+    let lower := fun c => negb (cy c <? height A) in
+    endorse_cells (cb_cells cbA) = Ok (filter (fsside upper) acc, filter (cside upper) groups)
+    /\ map_res (shift_ec (Z.of_nat k) (height A + Z.of_nat g)) (endorse_cells (cb_cells cbB))
+       = Ok (filter (fsside lower) acc, filter (cside lower) groups).
+Proof. exact stack_recognised_apart. Qed.
+Check C10_stacked_drawings :
+  forall A B k g css cbA cbB cb acc groups, (1 <= g)%nat ->
+    cellbuffer_of_text (A ++ [10]) css = Ok cbA -> cellbuffer_of_text B css = Ok cbB ->
+    cellbuffer_of_text (stacked A B k g) css = Ok cb ->
+    endorse_cells (cb_cells cb) = Ok (acc, groups) ->
+    let upper := fun c => cy c <? height A in
+    let lower := fun c => negb (cy c <? height A) in
+    endorse_cells (cb_cells cbA) = Ok (filter (fsside upper) acc, filter (cside upper) groups)
+    /\ map_res (shift_ec (Z.of_nat k) (height A + Z.of_nat g)) (endorse_cells (cb_cells cbB))
+       = Ok (filter (fsside lower) acc, filter (cside lower) groups).
+
+(** What remains with the correspondence and the oracle of this check: the no-fit hypothesis
+    of the last two theorems (C12 bounds every fragment by the canvas, not by the cells of its
+    own group) and the text stage of side-by-side placement (stacking is proved above). *)
 Example C10_nonvacuous : span_can_merge [(C 0 0, 45)] [(C 2 0, 45)] = false.
 Proof. reflexivity. Qed.
+(** a drawing of two boxes side by side with one blank column between them is separated, and
+    both parts are non-empty *)
+Definition two_parts : list (cell * Z) :=
+  [(C 0 0, 43); (C 1 0, 45); (C 2 0, 43); (C 4 0, 43); (C 5 0, 45); (C 6 0, 43);
+   (C 0 1, 43); (C 1 1, 45); (C 2 1, 43); (C 4 1, 43); (C 5 1, 45); (C 6 1, 43)].
+Example C10_nonvacuous_separated :
+  separated (fun c => cx c <? 3) two_parts
+  /\ length (filter (fun e => cx (fst e) <? 3) two_parts) = 6%nat
+  /\ exists acc groups, endorse_cells two_parts = Ok (acc, groups) /\ length acc = 2%nat.
+Proof.
+  split; [apply separatedb_sound; vm_compute; reflexivity|]. split; [reflexivity|].
+  vm_compute. do 2 eexists. split; reflexivity.
+Qed.
